@@ -16,7 +16,7 @@ CHECKS = {
             "encoder+decoder change breaks them); per-packet round-trip/layout theorems as listed in the evidence. "
             "Executable codec models (v3, v5) tied to the crate by differential runs of encoder and decoder, "
             "incl. frames from an independent spec encoder with shuffled properties.", "section 5, C01"),
-    "C04_pending": ("Coq theorem over all well-formed histories and every wrapping base value: what the response queue has "
+    "C04": ("Coq theorem over all well-formed histories and every wrapping base value: what the response queue has "
             "written is exactly the responses of the longest completed prefix of requests in arrival order (none "
             "lost, none duplicated, none out of order); after a handler error still a prefix. The model of "
             "io.rs's queue is tied to the real io::Dispatcher by exhaustive completion interleavings.",
@@ -25,6 +25,19 @@ CHECKS = {
             "lengths, panic branch reached iff out of range, limit scalars from the source) plus the per-packet "
             "size-agreement/limit theorems listed in the evidence; encoder models tied to the crate for every "
             "peer maximum 1..64 and samples to 2^28, debug and release builds.", "section 5, C09"),
+    "C12": ("Coq theorems (Props/C12.v, 14) about an executable model of inflight.rs driven by io.rs's reading rule, "
+            "for all legal operation sequences: at most max_receive non-chunk calls run at once, bytes in flight "
+            "<= max_receive_size + last packet, chunks of a streamed publish bypass the limit and the final chunk "
+            "ends the bypass, no lost wake-up (paused + available => woken), progress, no panic; plus the "
+            "refutation witnesses of the pre-fix tree (spawned calls counted late). Model tied to the real "
+            "InFlightServiceImpl by 5*10^5 exhaustive/random op sequences per quick run. The v5 receive-maximum half "
+            "is carried by the inbound model.", "section 5, C12"),
+    "C19": ("Coq theorems (Props/C19.v, 18): gate (handlers only after CONNECT + accepting answer, for any bytes and "
+            "fragmentation), non-CONNECT first packet ends, refusal = CONNACK then close, routing of the combined "
+            "server = sniffer result for every fragmentation, keep-alive factor in u16 arithmetic, cap = min rule, "
+            "limits in force = negotiated values; two refutations recorded as findings. Handshake model composed "
+            "with the codec and sniffer models, tied to real combined/v3/v5 servers on ~5*10^3 cases.",
+            "section 5, C19"),
     "C18": ("Six Coq theorems (Props/C18.v) about an executable model of src/topic.rs, for all byte strings of any "
             "length: validator = section 4.7 validity, the two validators agree, matches_topic = the section 4.7 "
             "answer (independent spec), parse/display round trip, soundness of matches_filter as a covering "
